@@ -616,13 +616,9 @@ package transport
 //@   modifies nothing
 //@ trusted writeIncrementalJson(w, responses, hasNext)
 //@   modifies nothing
-//@ trusted writeJson(w, response)
-//@   modifies nothing
 //@ trusted fmt.Fprintf(w, format, a) (n, err)
 //@   nopanic
 //@   pure
-//@ trusted (net/http.Flusher).Flush()
-//@   modifies nothing
 //@ func (*multipartResponseAggregator).flush [C12]
 //@   requires a != nil
 //@   ghost held = false
@@ -704,9 +700,6 @@ package transport
 // A transport other than GET claims a request only if it is a POST (the websocket transport only an Upgrade
 // request); GET claims only GET requests. With "first supporting transport wins" (Server.getTransport) a plain GET
 // can therefore only ever be served by the GET transport, whose gate allows queries only.
-//@ trusted mime.ParseMediaType(v) (mediatype, params, err)
-//@   nopanic
-//@   pure
 //@ trusted strings.Contains(s, sub) (b)
 //@   nopanic
 //@   pure
@@ -754,9 +747,6 @@ package transport
 
 // ---------------------------------------------------------------- C09: best-effort errors (SendError)
 // Same as handler.sendError: the JSON error body never goes out untyped.
-//@ trusted (net/http.ResponseWriter).Header() (h)
-//@   ensures h != nil
-//@   pure
 //@ func SendError [C09]
 //@   requires w != nil
 //@   ghost typed = false
